@@ -128,14 +128,14 @@ func keyFields(key string) []string {
 }
 
 type pfFacts struct {
-	lenNE  map[string][]int64            // len(key) ≠ c
+	lenNE  map[string][]int64           // len(key) ≠ c
 	origin map[string][]*ssa.BasicBlock // blocks whose branches established facts about key
 	cur    *ssa.BasicBlock
-	lenGE map[string][]term   // len(key) ≥ term
-	lenLE map[string][]term   // len(key) ≤ term
-	ub    map[ssa.Value]int64 // value ≤ c
-	lb    map[ssa.Value]int64 // value ≥ c
-	notes []string
+	lenGE  map[string][]term   // len(key) ≥ term
+	lenLE  map[string][]term   // len(key) ≤ term
+	ub     map[ssa.Value]int64 // value ≤ c
+	lb     map[ssa.Value]int64 // value ≥ c
+	notes  []string
 }
 
 func newPFFacts() *pfFacts {
@@ -1173,7 +1173,6 @@ func isSortComparator(f *ssa.Function) bool {
 	}
 	return false
 }
-
 
 // minLikeArgs: a call whose result is ≤ each of its arguments and equal to one of them — the builtin min, or a module
 // function of two int parameters that returns a parameter on every path, the first only under first ≤/< second and
